@@ -111,7 +111,10 @@ func (l *Lexer) NextToken() token.Token {
 		tok := l.bracesToken(token.LBRACES, "{{")
 
 		if l.char == '-' && l.peekChar() == '-' {
-			l.skipComment()
+			if !l.skipComment() {
+				return l.newToken(token.ILLEGAL, "{{--")
+			}
+
 			return l.NextToken()
 		}
 
@@ -574,23 +577,23 @@ func (l *Lexer) skipWhitespace() {
 	}
 }
 
-func (l *Lexer) skipComment() {
-	for l.char != 0 {
-		if l.char != '-' || l.peekChar() != '-' {
-			l.readChar()
-			continue
-		}
-
-		l.readChar() // skip "-"
-		l.readChar() // skip "-"
-
-		if l.char == '}' || l.peekChar() == '}' {
-			break
-		}
-	}
+func (l *Lexer) skipComment() bool {
+	end := strings.Index(l.input[l.pos:], "--}}")
 
 	l.isHTML = true
 
-	l.readChar() // skip "}"
-	l.readChar() // skip "}"
+	if end == -1 {
+		for l.pos < len(l.input) {
+			l.readChar()
+		}
+
+		return false
+	}
+
+	// skip the comment and its "--}}" terminator
+	for i := 0; i < end+4; i++ {
+		l.readChar()
+	}
+
+	return true
 }
